@@ -53,13 +53,13 @@ def slices(tier):
         dict(MaxE="3" if big else "2", MaxG="3" if big else "2", PX="2", PY="1", ELabels=S(q("car")), GLabels=S(q("car")), Frames="{0}",
              PolicySet=S(q("DEFAULT")), TargetSets=S('<<"car">>'), RadiusSets="{<<>>, <<<<3,2>>>>}", ModeSet=DIST_MODES,
              FpvalSet="{FALSE}", Sample="0"),
-        ("3d", "2d"),
+        ("3d", "2d", "3d_derived"),
     )
     sl["A_iou"] = (
         dict(MaxE="2", MaxG="3" if big else "2", PX="3" if big else "2", PY="1", ELabels=S(q("car")), GLabels=S(q("car")), Frames="{0}",
              PolicySet=S(q("DEFAULT")), TargetSets=S('<<"car">>'), RadiusSets="{<<>>, <<<<1,5>>>>, <<<<1,2>>>>}", ModeSet=IOU_MODES,
              FpvalSet="{FALSE}", Sample="0"),
-        ("3d", "2d"),
+        ("3d", "2d", "3d_derived"),
     )
     # B: labels x policy on a line of positions
     sl["B_labels"] = (
@@ -119,6 +119,11 @@ def render(sc, kind):
     """real objects for scene `sc`"""
     from ..build import obj2d, obj3d
 
+    if kind == "3d_derived":
+        from ..build import derive
+
+        e_, g_ = render(sc, "3d")
+        return [derive(o) for o in e_], [derive(o) for o in g_]
     ests, gts = [], []
     for i in range(sc["ne"]):
         x, y = sc["epos"][i]
@@ -155,7 +160,7 @@ def call_matcher(sc, kind, ests, gts):
 
     from ..build import AW, MODES, POLICIES
 
-    if kind == "3d":
+    if kind.startswith("3d"):
         task = EvaluationTask.FP_VALIDATION if sc["fpval"] else EvaluationTask.DETECTION
     else:
         task = EvaluationTask.FP_VALIDATION2D if sc["fpval"] else EvaluationTask.DETECTION2D
@@ -169,7 +174,7 @@ def call_matcher(sc, kind, ests, gts):
         matching_label_policy=POLICIES[sc["policy"]],
         matching_mode=MODES[sc["mode"]],
         matchable_thresholds=thr,
-        transforms=_EGO0.transforms() if kind == "3d" else None,
+        transforms=_EGO0.transforms() if kind.startswith("3d") else None,
     )
 
 
@@ -189,7 +194,7 @@ def replay_one(arg):
     for kind in kinds:
         if kind == "2d" and sc["mode"] in ("plane", "iou3d"):
             continue
-        if kind == "3d" and sc["mode"] != "center" and any(f == 1 for f in list(sc["efr"])[: sc["ne"]] + list(sc["gfr"])[: sc["ng"]]):
+        if kind.startswith("3d") and sc["mode"] != "center" and any(f == 1 for f in list(sc["efr"])[: sc["ne"]] + list(sc["gfr"])[: sc["ng"]]):
             continue
         n += 1
         ests, gts = render(sc, kind)
